@@ -7,6 +7,10 @@
         op: A<name>:<count>:<rf>+...|<srv>+<srv>..   D<name>:<id>   M<name>:<id>:<st>:<term>:<leader>:<ens>:<min>:<max>
      -> <id> <result>;<result>;...   one per op:
         [ok{add:<id>=<ns>,..}{del:<id>,..}{calls:<ns>/<sidx>/<idgen>/<#ns>,..} | panic{calls:..}]{<status>}{pub:<published>}
+   coord <id> <idgen0> <sidx0> <script> <op>;...     same ops plus R<config> (coordinator restart = apply on the stored status);
+        the real selector and the shard controllers run in the implementation, so ensembles, shard status (other than
+        Deleting), term, leader and the supplier call log are left out of the result:
+        [ok{add}{del} | restart | panic]{<idgen>,<sidx>|<ns>~<rf>~<id>:<D|L>:<min>:<max>,..}{pub:<ns>~<id>:<min>:<max>,..}
 *)
 let shard_of_string s =
   match String.split_on_char ':' s with
@@ -29,6 +33,24 @@ let join_or_dash sep l = if l = [] then "-" else String.concat sep l
 let string_of_meta m =
   Printf.sprintf "%s:%d:%s:%s:%s:%s:%s" (string_of_mz m.M.m_id) (int_of_st m.M.m_st) (string_of_mz m.M.m_term)
     (string_of_opt_n m.M.m_leader) (plus_of_ints m.M.m_ens) (string_of_n m.M.m_min) (string_of_n m.M.m_max)
+let string_of_meta_masked m =
+  Printf.sprintf "%s:%s:%s:%s" (string_of_mz m.M.m_id) (if m.M.m_st = M.SDeleting then "D" else "L")
+    (string_of_n m.M.m_min) (string_of_n m.M.m_max)
+let string_of_status_gen fmeta st =
+  let nss = List.sort (fun (a, _) (b, _) -> ncmp a b) st.M.st_ns in
+  let one (name, ns) =
+    let sh = List.sort (fun a b -> zcmp a.M.m_id b.M.m_id) ns.M.ns_shards in
+    Printf.sprintf "|%s~%s~%s" (string_of_n name) (string_of_n ns.M.ns_rf) (join_or_dash "," (List.map fmeta sh)) in
+  Printf.sprintf "%s,%s%s" (string_of_mz st.M.st_idgen) (string_of_n st.M.st_sidx)
+    (if nss = [] then "|-" else String.concat "" (List.map one nss))
+let string_of_pub_masked st =
+  let pub = List.sort (fun (a, _) (b, _) -> ncmp a b) (M.compute_assignments st) in
+  let one (name, l) =
+    let l = List.sort (fun (a, _) (b, _) -> zcmp a.M.sid b.M.sid) l in
+    Printf.sprintf "%s~%s" (string_of_n name)
+      (join_or_dash "," (List.map (fun (s, _) -> Printf.sprintf "%s:%s:%s" (string_of_mz s.M.sid)
+                                       (string_of_n s.M.smin) (string_of_n s.M.smax)) l)) in
+  join_or_dash "|" (List.map one pub)
 let string_of_status st =
   let nss = List.sort (fun (a, _) (b, _) -> ncmp a b) st.M.st_ns in
   let one (name, ns) =
@@ -50,13 +72,14 @@ let script_of_string s =
     | 'F' -> M.SFail
     | 'E' -> M.SExplicit (ints_of_plus (String.sub e 1 (String.length e - 1)))
     | _ -> M.SSimple) (String.split_on_char ',' s)
-let run_status g0 x0 script ops =
+let run_status ?(masked=false) g0 x0 script ops =
   let st = ref { M.st_ns = []; M.st_idgen = mz_of_string g0; M.st_sidx = n_of_string x0 } in
   let script = ref (script_of_string script) in
   let one o =
     let body = String.sub o 1 (String.length o - 1) in
     let head = match o.[0] with
-    | 'A' ->
+    | 'A' | 'R' ->
+      let restart = o.[0] = 'R' in
       let (nss, srvs) = match String.split_on_char '|' body with [a; b] -> (a, b) | _ -> failwith "bad A op" in
       let ncs = if nss = "-" then [] else List.map (fun p -> match String.split_on_char ':' p with
         | [a; b; c] -> { M.nc_name = n_of_string a; M.nc_count = n_of_string b; M.nc_rf = n_of_string c }
@@ -68,7 +91,8 @@ let run_status g0 x0 script ops =
       let calls = join_or_dash "," (List.map (fun (((a, b), c), d) ->
         Printf.sprintf "%s/%s/%s/%s" (string_of_n a) (string_of_n b) (string_of_mz c) (string_of_n d)) (List.rev sup'.M.sup_log)) in
       (match r with
-       | None -> "panic{calls:" ^ calls ^ "}"
+       | None -> if masked then "panic" else "panic{calls:" ^ calls ^ "}"
+       | Some ((st', _), _) when restart -> st := st'; "restart"
        | Some ((st', toadd), todel) ->
          st := st';
          (* the Go map keeps the last name stored for an id *)
@@ -76,9 +100,10 @@ let run_status g0 x0 script ops =
          List.iter (fun (id, name) -> Hashtbl.replace tbl (string_of_mz id) (id, name)) toadd;
          let adds = List.sort (fun (a, _) (b, _) -> zcmp a b) (Hashtbl.fold (fun _ v acc -> v :: acc) tbl []) in
          let dels = List.sort zcmp todel in
-         Printf.sprintf "ok{add:%s}{del:%s}{calls:%s}"
-           (join_or_dash "," (List.map (fun (id, name) -> string_of_mz id ^ "=" ^ string_of_n name) adds))
-           (join_or_dash "," (List.map string_of_mz dels)) calls)
+         let a = join_or_dash "," (List.map (fun (id, name) -> string_of_mz id ^ "=" ^ string_of_n name) adds)
+         and d = join_or_dash "," (List.map string_of_mz dels) in
+         if masked then Printf.sprintf "ok{add:%s}{del:%s}" a d
+         else Printf.sprintf "ok{add:%s}{del:%s}{calls:%s}" a d calls)
     | 'D' ->
       (match String.split_on_char ':' body with
        | [a; b] -> st := M.delete_shard_metadata (n_of_string a) (mz_of_string b) !st; ""
@@ -90,7 +115,8 @@ let run_status g0 x0 script ops =
                    M.m_leader = opt_n e; M.m_ens = ints_of_plus f; M.m_min = n_of_string g; M.m_max = n_of_string h } in
          st := M.update_shard_metadata (n_of_string a) m !st; ""
        | _ -> failwith "bad M op") in
-    head ^ "{" ^ string_of_status !st ^ "}{pub:" ^ string_of_pub !st ^ "}" in
+    if masked then head ^ "{" ^ string_of_status_gen string_of_meta_masked !st ^ "}{pub:" ^ string_of_pub_masked !st ^ "}"
+    else head ^ "{" ^ string_of_status !st ^ "}{pub:" ^ string_of_pub !st ^ "}" in
   String.concat ";" (List.map one (String.split_on_char ';' ops))
 
 let () = read_lines (fun line ->
@@ -108,5 +134,7 @@ let () = read_lines (fun line ->
     Printf.printf "%s %s\n" id (string_of_shards (sort_by_id r))
   | ["status"; id; g0; x0; script; ops] ->
     Printf.printf "%s %s\n" id (run_status g0 x0 script ops)
+  | ["coord"; id; g0; x0; script; ops] ->
+    Printf.printf "%s %s\n" id (run_status ~masked:true g0 x0 script ops)
   | [] | [""] -> ()
   | _ -> Printf.printf "?? bad line: %s\n" line)
